@@ -453,28 +453,60 @@ async def run_history(loop: vloop.VirtualLoop, ctx, h: hist.History, stack: str,
     await rig.stop()
 
 
-def run(ctx) -> None:
-    rng = ctx.rng
-    n = 40 if ctx.quick else 600
+def episode(ctx, local: int, gtrial: int) -> None:
+    """One history; a function of (seed, tier, local, gtrial) alone, so a witness can be re-run."""
+    import random
+
+    rng = random.Random(f"C13/{ctx.seed}/{gtrial}")
+    ctx.rng = rng
+    ctx.episode = {"seed": ctx.seed, "tier": ctx.tier, "local": local, "trial": gtrial}
     homes = hist.home_logs()
-    for trial in range(n):
-        stack = "port" if trial % 4 == 3 else "file"
-        base = homes[(ctx.shard + trial * ctx.nshards) % len(homes)] if trial < len(homes) else None
-        ops = None
-        if trial % 4 == 1:
-            ops = tuple(op for op in ("delete", "duplicate", "reorder", "mutate") if rng.random() < 0.5) + ("splice",)
-        h = hist.build(rng, max_len=60 if ctx.quick else 160, base=base, ops=ops)
-        eavesdrop = rng.random() < 0.5
+    stack = "port" if local % 4 == 3 else "file"
+    base = homes[gtrial % len(homes)] if local < len(homes) else None
+    ops = None
+    if local % 4 == 1:
+        ops = tuple(op for op in ("delete", "duplicate", "reorder", "mutate") if rng.random() < 0.5) + ("splice",)
+    h = hist.build(rng, max_len=60 if ctx.quick else 160, base=base, ops=ops)
+    eavesdrop = rng.random() < 0.5
+    harness.reset_transport_globals()
+    discovery = stack == "port" and rng.random() < 0.5
 
-        harness.reset_transport_globals()
+    async def go(loop):
+        with clocks_patched(entity_dt=(stack == "port")):
+            await run_history(loop, ctx, h, stack, eavesdrop, gtrial, discovery)
 
-        discovery = stack == "port" and rng.random() < 0.5
+    try:
+        vloop.run(go)
+    except vloop.Starved as err:
+        ctx.inconclusive_because(f"history starved the virtual clock: {err} ({h.sig()})")
 
-        async def go(loop, h=h, stack=stack, eavesdrop=eavesdrop, trial=trial, discovery=discovery):
-            with clocks_patched(entity_dt=(stack == "port")):
-                await run_history(loop, ctx, h, stack, eavesdrop, trial, discovery)
 
-        try:
-            vloop.run(go)
-        except vloop.Starved as err:
-            ctx.inconclusive_because(f"history starved the virtual clock: {err} ({h.sig()})")
+def run(ctx) -> None:
+    for local in range(40 if ctx.quick else 600):
+        episode(ctx, local, ctx.shard + local * ctx.nshards)
+
+
+def replay(data: dict[str, Any]) -> int:
+    """Re-run the episodes (seed, tier, trial) the witnesses came from, with all monitors."""
+    from .common import Ctx
+
+    bad, seen = 0, set()
+    for w in data.get("witnesses", []):
+        ep = w.get("episode") if isinstance(w, dict) else None
+        if not ep:
+            print("witness carries no episode:", str(w)[:300])
+            continue
+        k = (ep["seed"], ep["tier"], ep["local"], ep["trial"])
+        if k in seen:
+            continue
+        seen.add(k)
+        ctx = Ctx(PID, ep["tier"], ep["seed"], 0, 1)
+        episode(ctx, ep["local"], ep["trial"])
+        hit = [key for key in ctx.violations if key == data.get("key")] or list(ctx.violations)
+        for key in hit:
+            print("REPRODUCED", key, "-", ctx.violations[key]["what"])
+            print("   ", str(ctx.violations[key]["witnesses"][0])[:1200])
+            bad += 1
+        if not hit:
+            print(f"episode {ep}: not reproduced")
+    return bad
